@@ -1544,6 +1544,8 @@ class EffectDomain(DefaultDomain):
                     ok_, p_ = self._py(r.value) if r.kind == "val" else (False, None)
                     if r.kind == "exc":
                         out.append(r)
+                    elif ok_ and isinstance(p_, tuple) and not {"tuple", "list"} & set(names_):
+                        out.append(val(FALSE, r.state))   # a list / tuple is an instance of neither str, bytes, int ...
                     elif ok_ and p_ is not None and not isinstance(p_, tuple):
                         out.append(val(TRUE if any(isinstance(p_, types_[n_]) and not (types_[n_] is int and isinstance(p_, bool) and "bool" not in names_ and False) for n_ in names_) else FALSE, r.state))
                     else:
